@@ -63,6 +63,8 @@ MARKUP["bignum"] = [
     "<td colspan=" + N11 + ">", "<ol start=" + N11 + "><li>a</li></ol>", "<li value=" + N5000 + ">", "<font size=" + N11 + ">", "<font size=" + N5000 + ">",
     '<div style="width:' + N11 + 'px;height:' + N5000 + 'em">', '<span style="font-size:' + N11 + '%">', "<hr width=" + N11 + ">",
     "{{padleft:x|" + N11 + "}}", "{{#expr:" + N5000 + "}}", "{{#time:Y|" + N11 + "}}", "{{formatnum:" + N5000 + "}}", "{{#titleparts:a/b|" + N11 + "|" + N5000 + "}}",
+    # parser functions inside <ref>/<poem>: expanded by the default expander when no wiki db is behind the parser
+    "<ref>{{#ifexist:n}}</ref>", "<ref>{{#ifexist:File:a.png|y|n}} {{PAGENAME}} {{fullurl:A}} {{#time:Y}} {{REVISIONID}}</ref>", "<poem>{{#ifexist:A|y}}\n{{:A}} {{T|x}}</poem>",
     "<ref name=" + N5000 + "/>", "<timeline>\nImageSize = width:" + N11 + " height:" + N5000 + "\n</timeline>", "<math>" + N5000 + "</math>",
     # attribute values that are all digits (the attribute parser turns them into int)
     "<div class=2024>", '<div class="7">x</div>', "<span id=5>", "<table class=1><tr><td id=2>x", "<div style=3>", '<p lang="0">', "<ol type=1><li>a", '<span title="42">',
